@@ -10,6 +10,7 @@ inference-tools code and states assertions through `h`.  The same unit runs
   numerically.  A solver `sat` is reported as a violation only if the replay fails the same
   assertion.
 """
+import os
 import types
 import hashlib
 import inspect
@@ -171,6 +172,33 @@ class H:
         a = np.empty(shape, dtype=object if self.sym else float)
         for idx in np.ndindex(shape):
             a[idx] = self._scalar(name + "".join(f"_{i}" for i in idx), lo, hi, lo_strict, hi_strict)
+        return a
+
+    def fp(self, name, shape=None, lo=None, hi=None):
+        """IEEE-754 double input(s): any finite double (optionally within [lo, hi]); rounding is part of the model"""
+        from . import fp as _fp
+        name = self._uniq(name)
+
+        def one(nm):
+            if self.sym:
+                v = z3.FP(nm, _fp.F64)
+                self.ctx.inputs[nm] = v
+                self.ctx.side.append(_fp.is_finite(v))
+                if lo is not None:
+                    self.ctx.side.append(z3.fpGEQ(v, z3.FPVal(float(lo), _fp.F64)))
+                if hi is not None:
+                    self.ctx.side.append(z3.fpLEQ(v, z3.FPVal(float(hi), _fp.F64)))
+                return _fp.SymFP(v)
+            try:
+                return float(self.values[nm])
+            except KeyError:
+                raise ReplayMismatch(f"no value for input {nm}") from None
+        if shape is None:
+            return one(name)
+        shape = (shape,) if isinstance(shape, int) else tuple(shape)
+        a = np.empty(shape, dtype=object if self.sym else float)
+        for idx in np.ndindex(shape):
+            a[idx] = one(name + "".join(f"_{i}" for i in idx))
         return a
 
     def const(self, name):
@@ -492,6 +520,25 @@ def _same(a, b):
 ENGINE_ERRORS = (Realification, NotImplementedError)
 
 
+def _harness_reads_missing_internal(e):
+    if not isinstance(e, AttributeError):
+        return False
+    tb = e.__traceback__
+    last = None
+    while tb is not None:
+        last = tb
+        tb = tb.tb_next
+    if last is None:
+        return False
+    fn = last.tb_frame.f_code.co_filename
+    here = os.path.dirname(os.path.dirname(os.path.abspath(__file__)))
+    if not os.path.abspath(fn).startswith(os.path.join(here, "harness")):
+        return False
+    obj = getattr(e, "obj", None)
+    mod = getattr(obj, "__name__", None) if isinstance(obj, types.ModuleType) else getattr(type(obj), "__module__", "")
+    return bool(mod) and str(mod).split(".")[0] == "inference"
+
+
 def _run_concrete(u, values, uf_tables, family_index=0, fd_scale=1.0):
     """returns (checks list, exception or None)"""
     h = H(None, values, uf_tables, family_index, fd_scale)
@@ -590,7 +637,7 @@ def run_unit(u, tier="quick", seed=0, query_timeout_ms=None, log=print):
                                 branch_timeout_ms=opts.get("branch_timeout_ms", 3000),
                                 max_int_fork=opts.get("max_int_fork", 16),
                                 wall_s=opts.get("explore_wall_s", 600),
-                                ctx_opts={k: opts[k] for k in ("floor_lemmas", "axioms_in_branch", "floor_fork", "axioms_in_trunc") if k in opts})
+                                ctx_opts={k: opts[k] for k in ("floor_lemmas", "axioms_in_branch", "floor_fork", "axioms_in_trunc", "concretise") if k in opts})
     out = {
         "unit": u.name, "property": u.prop, "tier": tier, "params": {k: repr(v) for k, v in u.params.items()},
         "paths": 0, "aborted": {}, "obligations": 0, "unsat": 0, "sat": 0, "unknown": 0, "trivial": 0,
@@ -651,6 +698,10 @@ def run_unit(u, tier="quick", seed=0, query_timeout_ms=None, log=print):
             tb = "".join(traceback.format_exception(type(e), e, e.__traceback__)[-4:])
             if isinstance(e, ENGINE_ERRORS) or isinstance(e, ReplayMismatch):
                 out["inconclusive"].append(f"engine limitation on a path: {type(e).__name__}: {e}\n{tb}")
+            elif _harness_reads_missing_internal(e):
+                # the harness itself (not the code under test) asked a repo object for an attribute it no longer has:
+                # the internals were re-organised and the harness is out of date -- never a verdict about the property
+                out["inconclusive"].append(f"harness out of date: it reads an internal attribute the code no longer has: {e}\n{tb}")
             elif h.allowed_exc and isinstance(e, h.allowed_exc):
                 out["aborted"]["allowed_exception"] = out["aborted"].get("allowed_exception", 0) + 1
             else:
@@ -697,6 +748,20 @@ def run_unit(u, tier="quick", seed=0, query_timeout_ms=None, log=print):
     out["distinct"] = len(distinct)
     if out["reachable_paths"] + out["reachable_paths_noaxioms"] == 0 or out["obligations"] == 0:
         out["inconclusive"].append("vacuous unit: no reachable path with an obligation")
+    if not opts.get("_hunt") and not out["violations"] and any("Realification" in t for t in out["inconclusive"]):
+        # hunt mode: the exhaustive run stopped at a float() of a symbolic value.  Re-run with concolic concretisation of
+        # exactly those values: nothing is proved that way (the unit stays inconclusive), but a counterexample found and
+        # replayed on such a path is an ordinary violation.
+        u2 = Unit(u.prop, u.fn, u.params, u.tier, dict(opts, _hunt=True, concretise=True, max_paths=min(opts.get("max_paths", 3000), 400)))
+        try:
+            r2 = run_unit(u2, tier, seed, query_timeout_ms, log)
+            out["hunt"] = {"paths": r2["paths"], "obligations": r2["obligations"], "sat": r2["sat"], "violations": len(r2["violations"])}
+            for v in r2["violations"]:
+                v["detail"] = "[found with concretised float() values] " + str(v.get("detail", ""))
+                out["violations"].append(v)
+            out["sat"] += len(r2["violations"])
+        except Exception as e:  # noqa: BLE001
+            out["hunt"] = {"error": f"{type(e).__name__}: {e}"}
     out["wall_s"] = round(time.time() - t0, 2)
     out["solver"] = {k: (round(v, 2) if isinstance(v, float) else v) for k, v in STATS.items()}
     return out
